@@ -137,6 +137,16 @@ def search(payload):
                 fails.append({"p": "always_false_p", "q": repr(a), "kind": "always_false_p must imply anything"})
             if not (implies(PP.AndPredicate(a, b), a) and implies(PP.AndPredicate(a, b), b)):
                 fails.append({"p": repr(PP.AndPredicate(a, b)), "q": repr(a), "kind": "a conjunction must imply its conjuncts"})
+    # conjunctions written with the & operator, nested both ways: a conjunction implies each of its own conjuncts
+    from predicate.standard_predicates import ge_p as _ge, le_p as _le, ne_p as _ne
+    in_range = _ge(0) & _le(10)
+    for conj, parts in ((in_range & _ne(5), [in_range, _ne(5)]), (_ne(5) & in_range, [_ne(5), in_range]), ((in_range & _ne(5)) & _ne(7), [in_range & _ne(5), _ne(7)]),
+                        (_ne(7) & (in_range & _ne(5)), [_ne(7), in_range & _ne(5)]), (_ge(0) & _le(10) & _ne(5), [_ge(0) & _le(10), _ne(5)])):
+        for part in parts:
+            n += 1
+            if not implies(conj, part):
+                fails.append({"p": repr(conj), "q": repr(part), "p_structure": skey(conj), "q_structure": skey(part),
+                              "kind": "a conjunction (written with &) must imply its own operands"})
     for s in (set(), {1}, {1, 2}):
         if not (implies(is_real_subset_p(set(s)), is_subset_p(set(s))) and implies(is_real_superset_p(set(s)), is_superset_p(set(s)))):
             fails.append({"p": f"is_real_subset_p({s})", "kind": "real-subset must imply subset over the same set"})
